@@ -32,8 +32,9 @@ def family_haps(gts, nchildren, recomb_at=None):
     haps = [[None] * k for _ in range(members)]
     for i, g in enumerate(gts):
         al = [ALLELES[x] for x in g]
-        tf = 0 if (recomb_at is None or i < recomb_at) else 1
-        tm = 1
+        side, at = ("f", recomb_at) if not isinstance(recomb_at, (tuple, list)) else recomb_at
+        tf = 0 if (at is None or side != "f" or i < at) else 1
+        tm = 1 if (at is None or side != "m" or i < at) else 0
         best = None
         for fo in ((0, 1), (1, 0)):
             for mo in ((0, 1), (1, 0)):
@@ -96,7 +97,7 @@ def worlds(tier):
             per_variant.append(tuple(g))
     for gs in itertools.product(per_variant, repeat=3):
         for support in ("all", "child") + (("none", "parents") if T else ()):
-            for recomb in (None, 2) + ((1,) if T else ()):
+            for recomb in (None, 2, ("m", 2)) + ((1, ("m", 1)) if T else ()):
                 if recomb is not None and support != "all":
                     continue
                 opts = {}
@@ -245,6 +246,18 @@ def judge(inst):
             for t in traces:
                 if child in t["family"]:
                     comp = {p: c for p, c in t["components"]}
+                    # the transmitted haplotypes named in the list are those of the run's transmission vector
+                    tv, acc = t["transmission_vector"], t["accessible_positions"]
+                    ti = [c_ for c_, _f, _m in t["trios"]].index(child) if child in [c_ for c_, _f, _m in t["trios"]] else None
+                    if tv is not None and ti is not None and p1 - 1 in acc and p2 - 1 in acc:
+                        b1 = (tv[acc.index(p1 - 1)] >> (2 * ti)) & 3
+                        b2 = (tv[acc.index(p2 - 1)] >> (2 * ti)) & 3
+                        want = [b1 & 1, b2 & 1, b1 >> 1, b2 >> 1]
+                        got = [int(x) for x in r[4:8]]
+                        if got != want:
+                            viols.append(V("recombination-transmission", f"listed recombination {r}: transmitted haplotypes (father before/after, mother before/after) {got}, the run's transmission vector says {want}"))
+                        elif got[0] == got[1] and got[2] == got[3]:
+                            viols.append(V("recombination-transmission", f"listed recombination {r} names the same haplotypes on both sides"))
             if comp is None or comp.get(p1 - 1) is None or comp.get(p1 - 1) != comp.get(p2 - 1):
                 viols.append(V("recombination-outside-set", f"listed recombination {r} is not inside one phase set (components {comp})"))
     return viols[:5], conv, nontrivial
